@@ -21,7 +21,9 @@ class Collector:
     def is_known(self, kid): return kid in self._known
     def flush(self, ctx):
         for kid, what in self.k: ctx.known_finding(kid, what)
-        for what, case, ni in self.v: ctx.violation(what, case, no_input=ni)
+        kept, dropped = C.cap_violations(self.v)
+        for what, case, ni in kept: ctx.violation(what, case, no_input=ni)
+        if dropped: ctx.notes.append('%d further violations of the same (world, command) not written as replays' % dropped)
 
 def areas_term(delta, w):
     codes = sorted({C.AREA_CODES.get(a, 8) for a in C.classify_delta(delta, w)})
@@ -30,9 +32,11 @@ def areas_term(delta, w):
 def judge_pair(ctx, w, inv, a, b, cat, known_k8a):
     """the property predicate on one (no --yes, --yes) pair of runs.  Returns (case dict, refusal, delta_b)"""
     exp = C.expected_command_id(inv)
-    case = {'stream': 'cli', 'world': w.kind, 'invocation': inv.describe(), 'expected_command_id': exp,
+    case = {'stream': 'cli', 'world': w.kind, 'history': w.info.get('history'), 'invocation': inv.describe(), 'expected_command_id': exp,
             'without_yes': C.summarize(a), 'with_yes': C.summarize(b)}
     da = a['delta']; db = b['delta']
+    # K8a is the auto-fetch of *planning* commands; fetch / update populate the cache by design and are judged in full
+    known_k8a = known_k8a and inv.cid not in ('fetch', 'update')
     if da and C.only_cache_git(da, w) and known_k8a:
         ctx.known_finding(K8A, K8A_WHAT)
         da = {}
@@ -59,12 +63,14 @@ def judge_pair(ctx, w, inv, a, b, cat, known_k8a):
             ctx.violation('command %r is refused with E_CONFIRM_REQUIRED but help --json does not advertise it as mutating' % (refusal,), case)
     return case, refusal, db
 
-def run_world(kind, invs_seed, quick, known_k8a):
+def run_world(kind, invs_seed, quick, known_k8a, hist_steps=0):
     """all invocations of one world (runs in a worker process); returns plain data"""
     import random
     rng = random.Random(invs_seed)
     gen = C.gen_tables(); cat, _ = C.load_catalogue()
     w = C.build_world(kind, 'c08')
+    if hist_steps:
+        C.perturb(w, rng, hist_steps)
     ctx = Collector([K8A] if known_k8a else [])
     out = {'cases': [], 'refused': set(), 'n': 0, 'usage': 0, 'counts': [], 'samples': [], 'exercised': set(), 'col': ctx}
     try:
@@ -73,7 +79,7 @@ def run_world(kind, invs_seed, quick, known_k8a):
         for cid in cat.leaf_ids():
             if not cat.supports_json(cid):
                 continue
-            invs += C.invocations_for(cat, cid, w, rng, alternates=1 if quick else 0, full=not quick)
+            invs += C.invocations_for(cat, cid, w, rng, alternates=3 if quick else 0, full=not quick)
         for inv in invs:
             a = R.run(inv, yes=False)
             if C.is_usage_error(a['rc'], a['out'], a['err']):
@@ -89,6 +95,9 @@ def run_world(kind, invs_seed, quick, known_k8a):
             wrote = bool(db)
             f.update(C.flag_facts(inv, json_mode=True, yes=False))
             f['body_writes'] = wrote
+            if hist_steps and inv.cid == 'deploy':
+                # after a random history "a used root lacks its manifest" is not known by construction
+                f['manifest_missing'] = wrote and not f.get('plan_nonempty')
             aterm, acodes = areas_term(db, w)
             cid_obs = a['doc'].get('command_id') if isinstance(a['doc'], dict) else ''
             term = cq.cpair(cq.cstr(inv.cid), C.facts_term(f), cq.copt(refusal, cq.cstr), cq.cstr(cid_obs or ''),
@@ -203,7 +212,7 @@ def run_mcp_world(kind, seed, known_k8a):
 def replay(ctx, cat, gen):
     rep = json.load(open(ctx.replay))
     kind = rep.get('world')
-    if rep.get('stream') == 'cli' and kind:
+    if rep.get('stream') == 'cli' and kind and not rep.get('history'):
         w = C.build_world(kind, 'c08r')
         try:
             R = C.Runner(w, cat)
@@ -246,6 +255,7 @@ def run(ctx):
         return
     known_k8a = ctx.is_known(K8A)
     kinds = list(C.WORLD_KINDS)
+    hjobs = [] if quick else [(ctx.rng.choice(['deployed', 'pending', 'fresh', 'nomanifest', 'bootstrapped', 'adopt']), ctx.rng.randrange(2, 7), ctx.rng.randrange(1 << 30)) for _ in range(40)]
     seeds = {k: ctx.rng.randrange(1 << 30) for k in kinds}
     mseeds = {k: ctx.rng.randrange(1 << 30) for k in kinds}
     results = {}
@@ -253,8 +263,11 @@ def run(ctx):
         futs = {k: ex.submit(run_world, k, seeds[k], quick, known_k8a) for k in kinds}
         mkinds = ['fresh', 'deployed', 'pending', 'pending_dirty', 'nomanifest', 'gitmodule'] if quick else kinds
         mfuts = {k: ex.submit(run_mcp_world, k, mseeds[k], known_k8a) for k in mkinds}
+        hfuts = [ex.submit(run_world, k, sd, quick, known_k8a, hs) for k, hs, sd in hjobs]
         for k in kinds:
             results[k] = futs[k].result()
+        for i, f in enumerate(hfuts):
+            kinds.append('history-%d' % i); results['history-%d' % i] = f.result()
         mres = {k: mfuts[k].result() for k in mkinds}
     cases = []; refused = set(); exercised = set()
     for k in kinds:
@@ -273,7 +286,7 @@ def run(ctx):
         ctx.violation('help --json advertises %r as mutating but no invocation of it was refused in any world class' % (missing,),
                       {'stream': 'exactness', 'advertised': cat.mutating, 'observed_refusing': sorted(refused)})
     ctx.count('exactness', key=tuple(sorted(refused)), tags=['refusing_ids:%d' % len(refused)])
-    for c in ctx.corr('cli', HEADER, 'check_cli', 'str * facts * option str * str * bool * list N', cases):
+    for c in ctx.corr('cli', HEADER, 'check_cli', 'str * facts * option str * str * bool * list N', cases)[:6]:
         ctx.violation('model and implementation disagree on guard / would_write / command id / write areas', c, no_input=True)
     mcases = []
     for k, r in mres.items():
@@ -283,5 +296,5 @@ def run(ctx):
             ctx.count('mcp', key=key, nontrivial=nt, tags=tags)
     if mcases:
         ctx.sample(mcases[0][1])
-    for c in ctx.corr('mcp', HEADER, 'check_mcp', 'str * bool * facts * option str * bool * list N', mcases):
+    for c in ctx.corr('mcp', HEADER, 'check_mcp', 'str * bool * facts * option str * bool * list N', mcases)[:6]:
         ctx.violation('model and implementation disagree on an MCP mutating tool (guard / would_write / areas)', c, no_input=True)
